@@ -14,7 +14,7 @@ REQUIRED = ["iint", "Epoch.__init__", "Epoch.set", "Epoch._compute_jde", "Epoch.
 THEOREMS = ["C02_date_of_day", "C02_date_monotone", "C02_full_date_grid", "C02_fields_every_float",
             "C02_fields_premise_attained", "C02_input_forms_all", "C02_datetime",
             "C02_forms_grid", "C02_operators", "C02_arith_grid", "C02_arith_every_float", "C02_ctor_within_attained",
-            "C02_order_ideal", "C02_arith_ideal"]
+            "C02_ctor_exact_ideal", "C02_arith_exact_ideal", "C02_order_ideal", "C02_arith_ideal"]
 PROOF_TIMEOUT = {"quick": 2400, "thorough": 3000}
 EXHAUSTIVE = False
 MANIFEST = {
@@ -33,7 +33,8 @@ MANIFEST = {
              "Epoch(jde +/- x); that call does NOT store its argument exactly in binary64 (the JDE is re-derived from the "
              "broken-down date, 1 ulp off for 0.2% of JDEs); (e+x)-e = x and e-(e-x) = x to 1e-8 are proved for every finite "
              "float jde in [0,5.4e6], |x| <= 1e6 (Flocq half-ulp bounds) under the witnessed premise that this call is accurate "
-             "to 2^-29 day, which itself is known on the grids only; the ideal instance does not give (e+x)-e = x. "
+             "to 2^-29 day, which itself is known on the grids only; in the IDEAL instance the constructor is proved exact for every real JDE in [-0.5, 5399999.5) (Epoch(j) stores j; "
+             "hence (e+x)-e = x exactly), by symbolic evaluation over an abstract day number + a Z round-trip sweep. "
              "Bit-exact correspondence model vs implementation every run; boundary-heavy search oracle of every clause "
              "covers the gap between the grids and 'any instant'."),
     "technique": ("kernel computation over the full day range + grids (vm_compute reflection), lia/induction on the calendar "
@@ -61,17 +62,24 @@ CLAUSES = {
     "month names": "proved in C01 [B64, every year]; searched here",
     "<, <=, >, >= are the comparisons of the JDEs; == is |diff| < 1e-10; != = not ==; TypeError for other operands": "proved [every FloatOps instance, all floats / all reals, symbolic] + [ideal: iff statements]",
     "Epoch - Epoch = difference of JDEs; x + Epoch, += , -= return what + / - return; TypeError for other operands": "proved [every FloatOps instance, all values, float and int offsets, symbolic]",
+    "IDEAL instance: Epoch(j) and e.set(j) store exactly j; e +/- x, x + e, += , -= hold exactly jde +/- x": "proved [ideal, EVERY real j with -0.5 <= j < 5399999.5 (day numbers 0..5399999): symbolic evaluation of the regenerated get_date/_compute_jde/set over an abstract day number + exact recombination of the day fraction + integer decode/encode round trip for every day number by kernel computation over Z (16 shards); C02_ctor_exact_ideal, C02_arith_exact_ideal]; says nothing about binary64 rounding",
     "Epoch +/- x": "REDUCED to the constructor call Epoch(jde +/- x) [every FloatOps instance, symbolic]. Epoch(a) does NOT store a exactly in binary64 (set() re-derives the JDE from the broken-down date; Epoch(4193243.6725671566).jde() = 4193243.672567157): how close it stays is known on the grids only",
     "(e + x) - e = x and e - (e - x) = x to 1e-8 day": "proved for EVERY finite float jde in [0,5.4e6] and |x| <= 1e6 [B64 + Flocq half-ulp bounds, C02_arith_every_float] UNDER THE PREMISE that the constructor call Epoch(fl(jde +/- x)) stores its argument to within 2^-29 = 1.86e-9 day (attained: C02_ctor_within_attained; checked to 1e-8 on the grids; NOT proved for arbitrary floats: needs get_date/_compute_jde for an abstract day number); unconditional on the GRID [B64, 175 years x 12 month starts x 3 fractions x 16 offsets]; ideal instance: not proved; elsewhere searched",
     "__hash__": "unproved: not translated (hash of a float); not searched",
 }
 
 
+# the ideal-instance constructor theorem (Epoch(j) stores exactly j for every real j in range); other
+# properties can list these as "../C02/<file>" in their proof_files and Require Proofs.C02.C02_ctor_ideal
+CTOR_IDEAL_FILES = ["C02_ctor_spec.v"] + ["C02_ctor_rt_%02d.v" % k for k in range(16)] + ["C02_ctor_ideal.v"]
+
+
 def proof_files(tier):
     return (["C02_defs.v"] + ["C02_walk_%02d.v" % k for k in range(16)]
             + ["C02_full_%d.v" % k for k in range(3)] + ["C02_forms_%d.v" % k for k in range(2)]
             + ["C02_arith_%d.v" % k for k in range(4)]
-            + ["C02_special.v", "C02_sym.v", "C02_symf.v", "C02_hms.v", "C02_arith.v", "C02_main.v", "C02.v"])
+            + ["C02_special.v", "C02_sym.v", "C02_symf.v", "C02_hms.v", "C02_arith.v", "C02_main.v"]
+            + CTOR_IDEAL_FILES + ["C02.v"])
 
 
 NAMES = ["Jan", "Feb", "Mar", "Apr", "May", "Jun", "Jul", "Aug", "Sep", "Oct", "Nov", "Dec"]
